@@ -1145,6 +1145,23 @@ Proof.
     (eapply Forall_impl; [|exact Hrf]); intro e; [apply rf_not_clusters | apply rf_not_centroids].
 Qed.
 
+(* ... and after ANY sub-collection of them, in any order: with several worker processes the file
+   actions done when one of them fails are not a prefix of the sequential order *)
+Theorem failed_run_no_final_subset c files d0 ws' :
+  dir_wf d0 -> run_multiround fexp c files d0 = None ->
+  incl ws' (mr_writes_partial c files) ->
+  let d := dir_puts (dir_remove d0 is_purged) ws' in
+  dir_get d "clusters.pkl" = None /\ dir_get d "cluster-centroids-packed.pkl" = None.
+Proof.
+  intros H Hr Hi. apply (run_fails_iff_writes c files d0 H) in Hr. cbv zeta.
+  pose proof (writes_partial_failed_rf [] c files Hr) as Hrf.
+  fold (mr_writes_partial c files) in Hrf.
+  assert (Hrf' : rf_writes ws').
+  { unfold rf_writes in *. apply Forall_forall. intros e He. rewrite Forall_forall in Hrf. apply Hrf, Hi, He. }
+  split; (rewrite dir_get_puts_other; [rewrite dir_get_remove; reflexivity|]);
+    (eapply Forall_impl; [|exact Hrf']); intro e; [apply rf_not_clusters | apply rf_not_centroids].
+Qed.
+
 (* in particular for all of them *)
 Corollary failed_run_no_final_all c files d0 :
   dir_wf d0 -> run_multiround fexp c files d0 = None ->
